@@ -979,11 +979,20 @@ func (a *Agent) PortFwdGet(SocketID int) *PortFwd {
 	return nil
 }
 
+/* PortFwdConn returns the connection of a port forward, which PortFwdOpen and
+ * PortFwdClose change from other goroutines */
+func (a *Agent) PortFwdConn(PortFwd *PortFwd) net.Conn {
+	a.PortFwdsMtx.Lock()
+	defer a.PortFwdsMtx.Unlock()
+
+	return PortFwd.Conn
+}
+
 func (a *Agent) PortFwdIsOpen(SocketID int) (bool, error) {
 	PortFwd := a.PortFwdGet(SocketID)
 
 	if PortFwd != nil {
-		return PortFwd.Conn != nil, nil
+		return a.PortFwdConn(PortFwd) != nil, nil
 	} else {
 		return false, fmt.Errorf("rportfwd socket id %x not found", SocketID)
 	}
@@ -998,9 +1007,16 @@ func (a *Agent) PortFwdOpen(SocketID int) error {
 	PortFwd = a.PortFwdGet(SocketID)
 
 	if PortFwd != nil {
-		if PortFwd.Conn == nil {
+		if a.PortFwdConn(PortFwd) == nil {
+			var Conn net.Conn
+
 			/* open the connection to the target */
-			PortFwd.Conn, err = net.Dial("tcp", PortFwd.Target)
+			Conn, err = net.Dial("tcp", PortFwd.Target)
+			if err == nil {
+				a.PortFwdsMtx.Lock()
+				PortFwd.Conn = Conn
+				a.PortFwdsMtx.Unlock()
+			}
 			return err
 		} else {
 			return errors.New("rportfwd connection is already open")
@@ -1017,8 +1033,8 @@ func (a *Agent) PortFwdWrite(SocketID int, data []byte) error {
 
 	if PortFwd != nil {
 		/* write to the connection */
-		if PortFwd.Conn != nil {
-			_, err := PortFwd.Conn.Write(data)
+		if Conn := a.PortFwdConn(PortFwd); Conn != nil {
+			_, err := Conn.Write(data)
 			return err
 		} else {
 			return errors.New("rportfwd connection is empty")
@@ -1037,9 +1053,9 @@ func (a *Agent) PortFwdRead(SocketID int) ([]byte, error) {
 	PortFwd = a.PortFwdGet(SocketID)
 
 	if PortFwd != nil {
-		if PortFwd.Conn != nil {
+		if Conn := a.PortFwdConn(PortFwd); Conn != nil {
 			/* read from our socket to the data buffer or return error */
-			_, err := io.Copy(&data, PortFwd.Conn)
+			_, err := io.Copy(&data, Conn)
 			if err != nil {
 				return nil, err
 			}
